@@ -70,7 +70,28 @@ type Stats struct {
 	ActiveSeriesCount           uint64
 }
 
+// guarded by mu; the counters of a Stats are updated atomically
 var ustats = make(map[int64]*Stats)
+
+// lookupStats returns the stats of orgid, if any were recorded
+func lookupStats(orgid int64) (*Stats, bool) {
+	mu.Lock()
+	defer mu.Unlock()
+	st, ok := ustats[orgid]
+	return st, ok
+}
+
+// statsFor returns the stats of orgid, creating them on first use
+func statsFor(orgid int64) *Stats {
+	mu.Lock()
+	defer mu.Unlock()
+	st, ok := ustats[orgid]
+	if !ok {
+		st = &Stats{}
+		ustats[orgid] = st
+	}
+	return st
+}
 
 var msgPrinter *message.Printer
 
@@ -316,26 +337,30 @@ func ForceFlushStatstoFile() {
 }
 
 func logStatSummary(myid int64) {
-	if _, ok := ustats[myid]; ok {
+	if st, ok := lookupStats(myid); ok {
 		log.Infof("Ingest stats: past minute : myid=%v, events=%v, metrics=%v, traces=%v, bytes=%v, activeSeriesCount=%v",
 			myid,
-			msgPrinter.Sprintf("%v", ustats[myid].LogLinesCount),
-			msgPrinter.Sprintf("%v", ustats[myid].MetricsDatapointsCount),
-			msgPrinter.Sprintf("%v", ustats[myid].TraceSpanCount),
-			msgPrinter.Sprintf("%v", ustats[myid].BytesCount),
-			msgPrinter.Sprintf("%v", ustats[myid].ActiveSeriesCount))
+			msgPrinter.Sprintf("%v", st.LogLinesCount),
+			msgPrinter.Sprintf("%v", st.MetricsDatapointsCount),
+			msgPrinter.Sprintf("%v", st.TraceSpanCount),
+			msgPrinter.Sprintf("%v", st.BytesCount),
+			msgPrinter.Sprintf("%v", st.ActiveSeriesCount))
 
 		log.Infof("Ingest stats: total so far: myid=%v, events=%v, metrics=%v, traces=%v, bytes=%v",
 			myid,
-			msgPrinter.Sprintf("%v", ustats[myid].TotalLogLinesCount),
-			msgPrinter.Sprintf("%v", ustats[myid].TotalMetricsDatapointsCount),
-			msgPrinter.Sprintf("%v", ustats[myid].TotalTraceSpanCount),
-			msgPrinter.Sprintf("%v", ustats[myid].TotalBytesCount))
+			msgPrinter.Sprintf("%v", st.TotalLogLinesCount),
+			msgPrinter.Sprintf("%v", st.TotalMetricsDatapointsCount),
+			msgPrinter.Sprintf("%v", st.TotalTraceSpanCount),
+			msgPrinter.Sprintf("%v", st.TotalBytesCount))
 	}
 }
 
 func GetTotalLogLines(orgid int64) uint64 {
-	return ustats[orgid].TotalLogLinesCount
+	st, ok := lookupStats(orgid)
+	if !ok {
+		return 0
+	}
+	return st.TotalLogLinesCount
 }
 
 func FlushStatsToFile(orgid int64) error {
@@ -361,12 +386,12 @@ func FlushStatsToFile(orgid int64) error {
 		log.Debugf("flushQueryStatsToFile: flushed queryStats' queriesSinceInstall=%v", QueryStatsMap[orgid].QueriesSinceInstall)
 	}
 
-	if _, ok := ustats[orgid]; ok {
+	if st, ok := lookupStats(orgid); ok {
 		logStatSummary(orgid)
-		instrumentation.SetPastMinuteNumDataPoints(int64(ustats[orgid].MetricsDatapointsCount))
-		instrumentation.SetPastMinuteActiveSeriesCount(int64(ustats[orgid].ActiveSeriesCount))
+		instrumentation.SetPastMinuteNumDataPoints(int64(st.MetricsDatapointsCount))
+		instrumentation.SetPastMinuteActiveSeriesCount(int64(st.ActiveSeriesCount))
 
-		if ustats[orgid].BytesCount > 0 {
+		if st.BytesCount > 0 {
 			filename := getStatsFilename(GetBaseStatsDir(orgid))
 			fd, err := os.OpenFile(filename, os.O_RDWR|os.O_CREATE|os.O_APPEND, 0666)
 			if err != nil {
@@ -376,15 +401,15 @@ func FlushStatsToFile(orgid int64) error {
 			w := csv.NewWriter(fd)
 			var records [][]string
 			var record []string
-			bytesAsString := strconv.FormatUint(ustats[orgid].BytesCount, 10)
-			logLinesAsString := strconv.FormatUint(ustats[orgid].LogLinesCount, 10)
-			metricCountAsString := strconv.FormatUint(ustats[orgid].MetricsDatapointsCount, 10)
+			bytesAsString := strconv.FormatUint(st.BytesCount, 10)
+			logLinesAsString := strconv.FormatUint(st.LogLinesCount, 10)
+			metricCountAsString := strconv.FormatUint(st.MetricsDatapointsCount, 10)
 			epochAsString := strconv.FormatUint(uint64(time.Now().Unix()), 10)
-			logsBytesAsString := strconv.FormatUint(ustats[orgid].LogsBytesCount, 10)
-			metricsBytesAsString := strconv.FormatUint(ustats[orgid].MetricsBytesCount, 10)
-			traceBytesAsString := strconv.FormatUint(ustats[orgid].TraceBytesCount, 10)
-			traceSpanCountAsString := strconv.FormatUint(ustats[orgid].TraceSpanCount, 10)
-			activeSeriesCountAsString := strconv.FormatUint(ustats[orgid].ActiveSeriesCount, 10)
+			logsBytesAsString := strconv.FormatUint(st.LogsBytesCount, 10)
+			metricsBytesAsString := strconv.FormatUint(st.MetricsBytesCount, 10)
+			traceBytesAsString := strconv.FormatUint(st.TraceBytesCount, 10)
+			traceSpanCountAsString := strconv.FormatUint(st.TraceSpanCount, 10)
+			activeSeriesCountAsString := strconv.FormatUint(st.ActiveSeriesCount, 10)
 
 			record = []string{
 				bytesAsString, logLinesAsString, metricCountAsString, epochAsString,
@@ -398,16 +423,16 @@ func FlushStatsToFile(orgid int64) error {
 				log.Errorf("flushStatsToFile: write records failed, err=%v", err)
 				return err
 			}
-			log.Debugf("flushStatsToFile: flushed stats evCount=%v, metricsCount=%v, bytes=%v", ustats[orgid].LogLinesCount,
-				ustats[orgid].MetricsDatapointsCount, ustats[orgid].BytesCount)
+			log.Debugf("flushStatsToFile: flushed stats evCount=%v, metricsCount=%v, bytes=%v", st.LogLinesCount,
+				st.MetricsDatapointsCount, st.BytesCount)
 
-			atomic.StoreUint64(&ustats[orgid].BytesCount, 0)
-			atomic.StoreUint64(&ustats[orgid].LogLinesCount, 0)
-			atomic.StoreUint64(&ustats[orgid].MetricsDatapointsCount, 0)
-			atomic.StoreUint64(&ustats[orgid].LogsBytesCount, 0)
-			atomic.StoreUint64(&ustats[orgid].MetricsBytesCount, 0)
-			atomic.StoreUint64(&ustats[orgid].TraceBytesCount, 0)
-			atomic.StoreUint64(&ustats[orgid].TraceSpanCount, 0)
+			atomic.StoreUint64(&st.BytesCount, 0)
+			atomic.StoreUint64(&st.LogLinesCount, 0)
+			atomic.StoreUint64(&st.MetricsDatapointsCount, 0)
+			atomic.StoreUint64(&st.LogsBytesCount, 0)
+			atomic.StoreUint64(&st.MetricsBytesCount, 0)
+			atomic.StoreUint64(&st.TraceBytesCount, 0)
+			atomic.StoreUint64(&st.TraceSpanCount, 0)
 			return nil
 		}
 	}
@@ -415,43 +440,35 @@ func FlushStatsToFile(orgid int64) error {
 }
 
 func UpdateStats(logsBytesCount uint64, logLinesCount uint64, orgid int64) {
-	if _, ok := ustats[orgid]; !ok {
-		ustats[orgid] = &Stats{}
-	}
-	atomic.AddUint64(&ustats[orgid].BytesCount, logsBytesCount)
-	atomic.AddUint64(&ustats[orgid].LogLinesCount, logLinesCount)
-	atomic.AddUint64(&ustats[orgid].TotalBytesCount, logsBytesCount)
-	atomic.AddUint64(&ustats[orgid].TotalLogLinesCount, logLinesCount)
-	atomic.AddUint64(&ustats[orgid].LogsBytesCount, logsBytesCount)
+	st := statsFor(orgid)
+	atomic.AddUint64(&st.BytesCount, logsBytesCount)
+	atomic.AddUint64(&st.LogLinesCount, logLinesCount)
+	atomic.AddUint64(&st.TotalBytesCount, logsBytesCount)
+	atomic.AddUint64(&st.TotalLogLinesCount, logLinesCount)
+	atomic.AddUint64(&st.LogsBytesCount, logsBytesCount)
 }
 
 func UpdateTracesStats(traceBytesCount uint64, traceSpanCount uint64, orgid int64) {
-	if _, ok := ustats[orgid]; !ok {
-		ustats[orgid] = &Stats{}
-	}
-	atomic.AddUint64(&ustats[orgid].BytesCount, traceBytesCount)
-	atomic.AddUint64(&ustats[orgid].TraceBytesCount, traceBytesCount)
-	atomic.AddUint64(&ustats[orgid].TraceSpanCount, traceSpanCount)
-	atomic.AddUint64(&ustats[orgid].TotalTraceSpanCount, traceSpanCount)
-	atomic.AddUint64(&ustats[orgid].TotalBytesCount, traceBytesCount)
+	st := statsFor(orgid)
+	atomic.AddUint64(&st.BytesCount, traceBytesCount)
+	atomic.AddUint64(&st.TraceBytesCount, traceBytesCount)
+	atomic.AddUint64(&st.TraceSpanCount, traceSpanCount)
+	atomic.AddUint64(&st.TotalTraceSpanCount, traceSpanCount)
+	atomic.AddUint64(&st.TotalBytesCount, traceBytesCount)
 }
 
 func UpdateMetricsStats(metricsBytesCount uint64, incomingMetrics uint64, orgid int64) {
-	if _, ok := ustats[orgid]; !ok {
-		ustats[orgid] = &Stats{}
-	}
-	atomic.AddUint64(&ustats[orgid].BytesCount, metricsBytesCount)
-	atomic.AddUint64(&ustats[orgid].MetricsDatapointsCount, incomingMetrics)
-	atomic.AddUint64(&ustats[orgid].TotalBytesCount, metricsBytesCount)
-	atomic.AddUint64(&ustats[orgid].TotalMetricsDatapointsCount, incomingMetrics)
-	atomic.AddUint64(&ustats[orgid].MetricsBytesCount, metricsBytesCount)
+	st := statsFor(orgid)
+	atomic.AddUint64(&st.BytesCount, metricsBytesCount)
+	atomic.AddUint64(&st.MetricsDatapointsCount, incomingMetrics)
+	atomic.AddUint64(&st.TotalBytesCount, metricsBytesCount)
+	atomic.AddUint64(&st.TotalMetricsDatapointsCount, incomingMetrics)
+	atomic.AddUint64(&st.MetricsBytesCount, metricsBytesCount)
 }
 
 func UpdateActiveSeriesCount(orgid int64, activeSeriesCount uint64) {
-	if _, ok := ustats[orgid]; !ok {
-		ustats[orgid] = &Stats{}
-	}
-	atomic.StoreUint64(&ustats[orgid].ActiveSeriesCount, activeSeriesCount)
+	st := statsFor(orgid)
+	atomic.StoreUint64(&st.ActiveSeriesCount, activeSeriesCount)
 }
 
 func GetQueryStats(orgid int64) (uint64, float64, float64, uint64) {
@@ -462,7 +479,11 @@ func GetQueryStats(orgid int64) (uint64, float64, float64, uint64) {
 }
 
 func GetCurrentMetricsStats(orgid int64) (uint64, uint64) {
-	return ustats[orgid].TotalBytesCount, ustats[orgid].TotalMetricsDatapointsCount
+	st, ok := lookupStats(orgid)
+	if !ok {
+		return 0, 0
+	}
+	return st.TotalBytesCount, st.TotalMetricsDatapointsCount
 }
 
 func UpdateQueryStats(queryCount uint64, respTime float64, orgid int64) {
